@@ -4,6 +4,9 @@ use lazy_static::lazy_static;
 
 mod maxvaluetrack;
 
+#[cfg(probminhash_verif)]
+pub mod verif;
+
 pub mod jaccard;
 
 pub mod probminhasher;
